@@ -28,19 +28,19 @@ MANIFEST = {
     'note': ('trusted: Coq kernel, hand-written models SF/Hier.v (tied to the code by the correspondence of this run), harness. '
              'Partial: TypeBlocks extraction behind ih.loc/Series/Frame is observed against S only (no M); NumPy/automap label lookup is '
              'modelled as first-index-of under structural equality (levels are kept homogeneously typed); label slices with a step, '
-             'outer-depth Boolean masks and empty selections are outside the claim and not compared with S; the well-formedness hypothesis '
+             'outer-depth Boolean masks / stepped slices and empty selections are outside the claim and not compared with S; the datetime64 branch of LocMap.map_slice_args is not modelled (finding C05-hloc-neg-step-datetime: such keys are compared with S only); the well-formedness hypothesis '
              'of the theorems is checked (wf_obs) on every tree the implementation produced in this run.'),
     'technique': 'refinement proof M = S over trees (FIFO lemma) + differential runs on extracted trees',
 }
 PROPERTY_FILES = ['Properties/C05.v']
-REFUTED_FILES = []
+REFUTED_FILES = ['Refuted/C05.v']
 GENERATED_FILES = ['Gen/Gen_c05.v']
 MODEL_FILES = ['SF/Hier.v', 'SF/HierVal.v']
 IMPORTS = 'Require Import SF.Prelude SF.PySlice SF.Dtype SF.Value SF.Hier SF.HierVal.'
-RULE = ('trees of depth 2..4 with ragged fan-out 1..5, labels drawn per depth from small pools (so inner labels repeat under different '
+RULE = ('trees of depth 2..4 with ragged fan-out 1..6, labels drawn per depth from small pools (so inner labels repeat under different '
         'parents) in random order, per-depth kinds str/int/date; every construction route; selectors per depth from '
-        '{all, label, list, label slice} plus Boolean masks at the innermost depth / as whole key; GO histories of append/extend/read: EXHAUSTIVE over {materialise, append-leaf, append-branch, extend}^(<=2 quick, <=3 thorough) from two start indices with the full probe battery (derive a new index through 7 public routes and observe all its views; HLoc of every selector kind; Series/Frame .loc[HLoc]) run immediately after every growth step, plus random longer histories with random probes. '
-        'Exhaustive stratum (thorough tier, api:hloc:small): all 90 depth-2 trees with root labels a | a,b and leaf sequences of <= 2 distinct labels of {1,2,3} x every selector pair of the menu {:, label, ordered list of <= 2 labels, label slice with optional ends} (40500 keys) + one random innermost mask per tree; quick tier samples 700 of them. '
+        '{all, label, list, label slice} plus, at the innermost depth, label slices with a step (-2..2, ends biased to the first/last label of the leaf) and Boolean masks (also as whole key); iter_label(d) / iter_label([..]) observed first on every index (before the table is built) and right after every growth step; GO histories of append/extend/read: EXHAUSTIVE over {materialise, append-leaf, append-branch, extend}^(<=2 quick, <=3 thorough) from two start indices with the full probe battery (derive a new index through 7 public routes and observe all its views; HLoc of every selector kind; Series/Frame .loc[HLoc]) run immediately after every growth step, plus random longer histories with random probes. '
+        'Exhaustive stratum (thorough tier, api:hloc:small): all 90 depth-2 trees with root labels a | a,b and leaf sequences of <= 2 distinct labels of {1,2,3} x every selector pair of the menu {:, label, ordered list of <= 2 labels, label slice with optional ends} (40500 keys) + one random innermost mask per tree; quick tier samples 700 of them; second exhaustive stratum api:hloc:small-step: 2 three-leaf trees (leaves of 2-4 labels, sorted and unsorted) and the 90 small trees x outer selector x stepped innermost slice (ends None|label, step -2,-1,1,2), 17k keys (quick: 500). '
         'non-trivial = the selection is non-empty and the tree has more than one leaf node; distinct = distinct (rows, route/key).')
 ASSUMPTIONS = [
     'label lookup in an Index (FrozenAutoMap / dict) = first position under structural equality of canonical labels; levels are homogeneously typed so Python == and structural equality coincide',
@@ -299,6 +299,9 @@ def sel_lit(s):
         return f'(SSlice {o(s[1])} {o(s[2])})'
     if k == 'mask':
         return f'(SMask {bl(s[1])})'
+    if k == 'step':
+        o = lambda x: 'None' if x is None else f'(Some {lab(x)})'
+        return f'(SStep {o(s[1])} {o(s[2])} {lit.z(s[3])})'
     raise ValueError(s)
 
 
@@ -314,6 +317,8 @@ def sel_py(s):
         return slice(s[1], s[2])
     if k == 'mask':
         return np.array(s[1], dtype=bool)
+    if k == 'step':
+        return slice(s[1], s[2], s[3])
     raise ValueError(s)
 
 
@@ -327,6 +332,8 @@ def sel_json(s):
         return ['slice', None if s[1] is None else jl(s[1]), None if s[2] is None else jl(s[2])]
     if k == 'mask':
         return ['mask', [bool(x) for x in s[1]]]
+    if k == 'step':
+        return ['slice-with-step', None if s[1] is None else jl(s[1]), None if s[2] is None else jl(s[2]), s[3]]
     return ['all']
 
 
@@ -380,13 +387,13 @@ def hres_lit(single, ps):
 
 # ----------------------------------------------------------------------------- generators
 POOLS = {
-    'str': ['a', 'b', 'c', 'd', 'e'],
-    'int': [1, 2, 3, 4, 5],
-    'date': [EPOCH + np.timedelta64(18262 + k, 'D') for k in range(5)],     # 2020-01-01 ...
+    'str': ['a', 'b', 'c', 'd', 'e', 'f'],
+    'int': [1, 2, 3, 4, 5, 6],
+    'date': [EPOCH + np.timedelta64(18262 + k, 'D') for k in range(6)],     # 2020-01-01 ...
 }
 
 
-def gen_shape(rng, depth, kinds, fan_max, pool_n=5):
+def gen_shape(rng, depth, kinds, fan_max, pool_n=6):
     '''Nested shape: inner = list of (label, sub); leaf = list of labels. Labels per depth from a small pool, random order.'''
     def rec(d):
         pool = POOLS[kinds[d]][:pool_n]
@@ -459,6 +466,12 @@ def gen_sel(rng, pool, n_rows, inner, group_labels=None):
     if r < 0.7:
         k = rng.randint(1, min(3, len(pool)))
         return ('list', rng.sample(pool, k))
+    if inner and 0.78 <= r < 0.9 and group_labels:
+        # a label slice with a step at the innermost depth; end points biased to the first / last label of the leaf
+        ends = [group_labels[0], group_labels[-1], rng.choice(group_labels), rng.choice(list(pool))]
+        a = rng.choice(ends + [None]) if rng.random() < 0.25 else rng.choice(ends)
+        b = rng.choice(ends + [None]) if rng.random() < 0.25 else rng.choice(ends)
+        return ('step', a, b, rng.choice([-2, -1, -1, 1, 2]))
     if r < 0.9 or not inner:
         a = rng.choice([None] + list(src))
         b = rng.choice([None] + list(src))
@@ -554,6 +567,60 @@ def observe_views(ctx, ih, rows, route, extra_tags=None):
                    tags={'route': route, 'view': 'raised'}, key=f'raised|{route}|{rows_lit(rows)}')
 
 
+def iter_label_observe(ih, depth):
+    '''iter_label(d) for every depth and iter_label([..]) for depth lists; touches no cache.'''
+    fresh = bool(ih._recache)
+    out = {'fresh': fresh, 'single': [], 'multi': []}
+    for d in range(depth):
+        try:
+            out['single'].append([canon(x) for x in ih.iter_label(d)])
+        except Exception as e:  # noqa
+            out['single'].append(e)
+    for ds in (list(range(depth)), [depth - 1, 0]):
+        try:
+            out['multi'].append((ds, [tuple(canon(x) for x in t) for t in ih.iter_label(ds)]))
+        except Exception as e:  # noqa
+            out['multi'].append((ds, e))
+    return out
+
+
+def iter_label_cases(ctx, ih, tree, rows, route, stratum, base, tags, obs=None):
+    depth = len(rows[0])
+    obs = obs if obs is not None else iter_label_observe(ih, depth)
+    tl, rl = tree_lit(tree), rows_lit(rows)
+    fresh = obs['fresh']
+    wide = max_outer_fan(tree)
+    ctx.count(f'iter_label:{"tree" if fresh else "table"}', f'outer-fan:{min(wide, 6)}')
+    for d, col in enumerate(obs['single']):
+        t = dict(tags, view='iter_label', d=d, fresh=fresh)
+        desc = dict(base, observe=f'list(ih.iter_label({d}))' + (' before the table is built' if fresh else ''))
+        if isinstance(col, Exception):
+            yield Case(stratum, desc, py_fail=f'iter_label({d}) raised {type(col).__name__}: {col}'[:300], tags=t, key=f'il{d}|{route}|{rl}|{json_key(base.get("history"))}')
+            continue
+        cl = lit.lst([lab(x) for x in col])
+        yield Case(stratum, dict(desc, observed=[jl(x) for x in col]),
+                   m=(f'check_labels_M {tl} {d} {cl}' if fresh else f'check_col_M {tl} {d} {cl}'), s=f'check_col_S {rl} {d} {cl}',
+                   tags=t, nontrivial=wide >= 4, key=f'il{d}|{fresh}|{route}|{rl}|{json_key(base.get("history"))}')
+    problems = []
+    for ds, got in obs['multi']:
+        if isinstance(got, Exception):
+            problems.append(f'iter_label({ds}) raised {type(got).__name__}: {got}')
+            continue
+        want = [tuple(canon(r[d]) for d in ds) for r in rows]
+        if [row_lit(r) for r in got] != [row_lit(r) for r in want]:
+            problems.append(f'iter_label({ds}) yields {len(got)} tuples, differs from the projection of the {len(rows)} label tuples')
+    yield Case(stratum + ':depth_list', dict(base, observe='list(ih.iter_label([d0, d1, ...]))', fresh=fresh),
+               py_fail='; '.join(problems)[:400] or None, tags=dict(tags, view='iter_label_list', fresh=fresh),
+               nontrivial=wide >= 4, key=f'ill|{fresh}|{route}|{rl}|{json_key(base.get("history"))}')
+
+
+def max_outer_fan(t):
+    '''Largest number of children of a non-leaf node.'''
+    if t[0] == 'L':
+        return 0
+    return max([len(t[3])] + [max_outer_fan(k) for k in t[3]])
+
+
 def _observe_views(ctx, ih, rows, route, extra_tags=None):
     tags = {'route': route}
     tags.update(extra_tags or {})
@@ -565,6 +632,9 @@ def _observe_views(ctx, ih, rows, route, extra_tags=None):
     nontrivial = tree_leaves(tree) > 1
     base = {'route': route, 'rows': [[jl(x) for x in r] for r in rows]}
     ctx.count(f'depth:{depth}', f'rows:{min(n, 20)}', f'route:{route}')
+
+    # -- iter_label FIRST: while the 2-D table is not built it runs IndexLevel.labels_at_depth
+    yield from iter_label_cases(ctx, ih, tree, rows, route, 'api:views:iter_label', base, tags)
 
     # -- python-side consistency of the cheap views
     problems = []
@@ -661,6 +731,18 @@ def json_key(x):
     return json.dumps(x, sort_keys=True, default=str) if x else ''
 
 
+def step_finding(key, depth, kinds=None):
+    '''Input classes (by construction of the key) of the two open findings on stepped label slices.'''
+    if len(key) < depth or key[depth - 1][0] != 'step':
+        return None
+    _, a, b, k = key[depth - 1]
+    if k < 0 and isinstance(a if a is not None else b, np.datetime64):
+        return 'C05-hloc-neg-step-datetime'
+    if k < 0 and (a is None or b is None):
+        return 'C05-hloc-open-neg-step-slice'
+    return None
+
+
 def hloc_observe(ih, key, n, wrap=None):
     def run():
         return canon_iloc(ih.loc_to_iloc(hloc_of(key, wrap, ih)), n)
@@ -680,13 +762,18 @@ def hloc_case(ctx, ih, tree, rows, key, route, stratum='api:hloc:loc_to_iloc', w
         ctx.count(f'hloc-wrap:{wrap}')
     if open_inner_slice(key, depth):
         tags['open_inner_slice'] = True      # regression class of the repaired defect cc33791
-    outer_mask = any(s[0] == 'mask' for s in key[:depth - 1]) if len(key) >= 1 else False
+    sfnd = step_finding(key, depth)
+    if sfnd:
+        tags['finding'] = sfnd
+    outer_mask = any(s[0] in ('mask', 'step') for s in key[:depth - 1]) if len(key) >= 1 else False
+    if sfnd == 'C05-hloc-neg-step-datetime':
+        tl = None        # M models the generic branch of map_slice_args; the datetime64 branch differs (finding)
     nontrivial = (not isinstance(out, Exception)) and len(out[1]) > 0 and tree_leaves(tree) > 1
     return Case(stratum,
                 {'route': route, 'rows': [[jl(x) for x in r] for r in rows],
                  'call': 'ih.loc_to_iloc(HLoc[key])' + (f' with list/mask selectors passed as {wrap}' if wrap else ''),
                  'key': [sel_json(s) for s in key], 'observed': txt, **(extra or {})},
-                m=None if outer_mask else f'check_hloc_M {tl} {kl} {txt}',
+                m=None if (outer_mask or tl is None) else f'check_hloc_M {tl} {kl} {txt}',
                 s=None if outer_mask else f'check_hloc_S {rl} {kl} {txt}',
                 tags=tags, nontrivial=nontrivial, key=f'hloc|{wrap}|{rl}|{kl}|{json_key(extra)}')
 
@@ -701,6 +788,8 @@ def extract_cases(ctx, ih, rows, key, route, only=None, extra=None):
     pl = zl(payload)
     want = {row_lit(r): i for i, r in enumerate(rows)}
     tags = {'route': route, 'op': 'extract'}
+    if step_finding(key, depth):
+        tags['finding'] = step_finding(key, depth)
     if open_inner_slice(key, depth):
         tags['open_inner_slice'] = True      # regression class of the repaired defect cc33791
     h = hloc_of(key)
@@ -780,7 +869,7 @@ def random_key(rng, rows, kinds, allow_short=True):
     key = []
     for d in range(klen):
         pool = POOLS[kinds[d]][:5]
-        group = sorted({jl(r[d]): r[d] for r in rows if r[:d] == anchor[:d]}.items(), key=lambda kv: str(kv[0]))
+        group = list({jl(r[d]): r[d] for r in rows if r[:d] == anchor[:d]}.items())      # index order
         key.append(gen_sel(rng, pool, n, inner=(d == depth - 1), group_labels=[v for _, v in group]))
     return key
 
@@ -807,6 +896,30 @@ def corpus_cases(ctx):
         yield hloc_case(ctx, ih, tree, FIXED_ROWS, key, 'corpus', stratum='corpus:hloc')
         yield from extract_cases(ctx, ih, FIXED_ROWS, key, 'corpus')
     yield from observe_views(ctx, ih, FIXED_ROWS, 'corpus')
+    # nodes with >= 4 children at a non-innermost depth: iter_label / label widths before the table is built
+    wide2 = [(o, i) for o, n_ in (('a', 2), ('b', 1), ('c', 3), ('d', 2), ('e', 1), ('f', 2)) for i in range(1, n_ + 1)]
+    wide3 = [('p', o, i) for o, i in wide2[:7]] + [('q', 'a', 1), ('q', 'b', 1), ('q', 'c', 1), ('q', 'd', 2), ('q', 'e', 1)]
+    for wrows in (wide2, wide3):
+        for cls in (sf.IndexHierarchy, sf.IndexHierarchyGO):
+            yield from observe_views(ctx, cls.from_labels(wrows), wrows, 'corpus-wide')
+    # label slices with a step at the innermost depth (the coordinator's example: stop label = first label of a leaf
+    # that does not start at position 0)
+    srows = [('a', 1), ('a', 2), ('a', 3), ('b', 1), ('b', 2), ('b', 3), ('b', 4), ('c', 2), ('c', 3)]
+    sih = sf.IndexHierarchy.from_labels(srows)
+    stree = tree_of(sih._levels)
+    for key in ([('one', 'b'), ('step', 3, 1, -1)], [('one', 'b'), ('step', 4, 1, -2)], [('one', 'b'), ('step', 1, 4, 2)],
+                [('one', 'c'), ('step', 3, 2, -1)], [('all',), ('step', 3, 2, -1)], [('one', 'b'), ('step', None, None, 2)],
+                [('one', 'b'), ('step', 2, None, 2)], [('one', 'b'), ('step', 1, 3, -1)], [('list', ['c', 'a']), ('step', 3, 2, -1)],
+                # open ends walking down: finding C05-hloc-open-neg-step-slice
+                [('one', 'b'), ('step', None, 2, -1)], [('one', 'b'), ('step', 3, None, -1)], [('one', 'b'), ('step', None, None, -1)]):
+        yield hloc_case(ctx, sih, stree, srows, key, 'corpus', stratum='corpus:hloc')
+        yield from extract_cases(ctx, sih, srows, key, 'corpus', only=('series.loc', 'frame.loc'))
+    # datetime64 level walking down: finding C05-hloc-neg-step-datetime
+    D = POOLS['date']
+    drows = [('a', D[0]), ('a', D[1]), ('b', D[0]), ('b', D[1]), ('b', D[2])]
+    dih = sf.IndexHierarchy.from_labels(drows)
+    for key in ([('one', 'b'), ('step', D[2], D[0], -1)], [('one', 'b'), ('step', D[0], D[2], 2)]):
+        yield hloc_case(ctx, dih, tree_of(dih._levels), drows, key, 'corpus', stratum='corpus:hloc')
     # overlong key membership
     ks = [('a', 1, 'x', 'x')]
     kl = lit.lst([row_lit(k) for k in ks])
@@ -824,7 +937,7 @@ def construct_cases(ctx):
     for i in range(n_trees):
         depth = rng.choice([2, 2, 3, 3, 3, 4])
         kinds = gen_kinds(rng, depth)
-        shape = gen_shape(rng, depth, kinds, fan_max=rng.choice([2, 3, 3, 5]) if depth < 4 else 2)
+        shape = gen_shape(rng, depth, kinds, fan_max=rng.choice([2, 3, 4, 6]) if depth < 4 else 2)
         rows = shape_rows(shape)
         routes = build_routes(rows, shape, kinds)
         names = sorted(routes)
@@ -895,11 +1008,39 @@ def hloc_cases(ctx):
         rows, ih, tree = cache[sid]
         yield hloc_case(ctx, ih, tree, rows, key, 'small-depth2', stratum='api:hloc:small')
     ctx.count(f'hloc-small-space:{total}')
+    # -- exhaustive small space for label slices WITH A STEP at the innermost depth
+    big = [[('a', [1, 2, 3]), ('b', [1, 2, 3, 4]), ('c', [2, 3])], [('a', [3, 1, 2]), ('b', [2, 4, 1, 3]), ('c', [4, 1])]]
+    scombos = []
+    for shape in big:
+        for s0 in [('one', 'a'), ('one', 'b'), ('one', 'c'), ('all',), ('list', ['c', 'a'])]:
+            for a in [None, 1, 2, 3, 4]:
+                for b in [None, 1, 2, 3, 4]:
+                    for k in (-2, -1, 1, 2):
+                        scombos.append((shape, [s0, ('step', a, b, k)]))
+    for shape in trees:
+        for s0 in [('one', 'a'), ('one', 'b'), ('all',)]:
+            for a in [None, 1, 2, 3]:
+                for b in [None, 1, 2, 3]:
+                    for k in (-2, -1, 1, 2):
+                        scombos.append((shape, [s0, ('step', a, b, k)]))
+    stotal = len(scombos)
+    sbudget = ctx.n(500, 20000)
+    if stotal > sbudget:
+        scombos = rng.sample(scombos, sbudget)
+    for shape, key in scombos:
+        sid = id(shape)
+        if sid not in cache:
+            rows = shape_rows(shape)
+            ih = sf.IndexHierarchy.from_labels(rows)
+            cache[sid] = (rows, ih, tree_of(ih._levels))
+        rows, ih, tree = cache[sid]
+        yield hloc_case(ctx, ih, tree, rows, key, 'small-step', stratum='api:hloc:small-step')
+    ctx.count(f'hloc-small-step-space:{stotal}')
     # -- random bigger trees, all depths
     for _ in range(ctx.n(40, 400)):
         depth = rng.choice([2, 3, 3, 4])
         kinds = gen_kinds(rng, depth)
-        shape = gen_shape(rng, depth, kinds, fan_max=rng.choice([2, 3, 3, 5]) if depth < 4 else 2)
+        shape = gen_shape(rng, depth, kinds, fan_max=rng.choice([2, 3, 4, 6]) if depth < 4 else 2)
         rows = shape_rows(shape)
         route = rng.choice(['from_labels', 'go_from_labels', 'index_constructors', 'go_appends', 'from_tree'])
         ih = build_routes(rows, shape, kinds)[route]()
@@ -1006,15 +1147,18 @@ def probe_battery(want, depth, order=0):
             seen.add(key_lit(k))
             hl2.append(k)
     masks = [[('all',)] * (depth - 1) + [('mask', [True] * n)], pre + [('mask', [i == n - 1 for i in range(n)])]]
-    ph = [('hloc', k) for k in hl2]
+    leaf = [x[-1] for x in want if x[:-1] == r[:-1]]
+    for k in ([pre + [('step', leaf[-1], leaf[0], -1)], pre + [('step', leaf[0], leaf[-1], 2)]] if len(leaf) > 1 else []):
+        hl2.append(k)
+    ph = [('iter_label',)] + [('hloc', k) for k in hl2]
     pe = [('extract', pre + [('all',)]), ('extract', [('all',)] * (depth - 1) + [('one', r[-1])])]
     pd = [('derive', k) for k in DERIVE_KINDS]
     pm = [('hloc', k) for k in masks]
     if order == 0:
         return ph + pe + pd[:-1] + pm + pd[-1:]
     if order == 1:
-        return pd[:-1] + ph + pe + pm + pd[-1:]
-    return pe + pd[:-1] + ph + pm + pd[-1:]
+        return ph[:1] + pd[:-1] + ph[1:] + pe + pm + pd[-1:]
+    return ph[:1] + pe + pd[:-1] + ph[1:] + pm + pd[-1:]
 
 
 def run_probes(ctx, g, probes, want):
@@ -1022,7 +1166,9 @@ def run_probes(ctx, g, probes, want):
     n = len(want)
     raw = []
     for i, p in enumerate(probes):
-        if p[0] == 'hloc':
+        if p[0] == 'iter_label':
+            raw.append(('iter_label', i, None, iter_label_observe(g, len(want[0]))))
+        elif p[0] == 'hloc':
             raw.append(('hloc', i, p[1], hloc_observe(g, p[1], n)))
         elif p[0] == 'derive':
             try:
@@ -1093,7 +1239,10 @@ def derived_case(ctx, kind, obj, want, stratum, extra):
 def probe_cases(ctx, g, raw, tree_after, want, stratum, steps_json):
     for kind, i, arg, res in raw:
         extra = {'history': steps_json, 'probe': i, 'probed': 'immediately after the last step'}
-        if kind == 'hloc':
+        if kind == 'iter_label':
+            yield from iter_label_cases(ctx, g, tree_after, want, 'go-grown', stratum + ':iter_label_after_growth',
+                                        {'history': steps_json, 'rows': [[jl(x) for x in r] for r in want]}, {'op': 'iter_label'}, obs=res)
+        elif kind == 'hloc':
             ctx.count('go:probe:hloc')
             yield hloc_case(ctx, g, tree_after, want, arg, 'go-grown', stratum=stratum + ':hloc_after_growth', obs=res, extra=extra)
         elif kind == 'derive':
@@ -1269,12 +1418,14 @@ def random_probes(rng, want, kinds):
     dv = [p for p in battery if p[0] == 'derive' and p[1] != 'copy']
     ex = [p for p in battery if p[0] == 'extract']
     chosen = [rng.choice(hl[:5]), ('hloc', random_key(rng, want, kinds))] + rng.sample(dv, 2)
+    if rng.random() < 0.5:
+        chosen.append(rng.choice(hl[5:]))
     if rng.random() < 0.4:
         chosen.append(rng.choice(ex))
     rng.shuffle(chosen)
     if rng.random() < 0.3:
         chosen.append(('derive', 'copy'))
-    return chosen
+    return [('iter_label',)] + chosen
 
 
 def short_history_cases(ctx):
